@@ -215,7 +215,15 @@ func genQual(r *core.RNG) qualSpec {
 	case 2:
 		return qualSpec{toggleNames[r.Intn(len(toggleNames))], ""}
 	case 3:
-		return qualSpec{unknownNames[r.Intn(len(unknownNames))], genText(r, 1, 4)}
+		// names gts has no type for: the reader learns one on first sight, for the whole process
+		n := unknownNames[r.Intn(len(unknownNames))]
+		switch r.Intn(5) {
+		case 0:
+			return qualSpec{n, ""}
+		case 1:
+			return qualSpec{n, fmt.Sprint(r.Range(1, 99))}
+		}
+		return qualSpec{n, genText(r, 1, 4)}
 	}
 	n := quotedNames[r.Intn(len(quotedNames))]
 	switch r.Intn(8) {
